@@ -71,6 +71,21 @@ class BitDevice(Device):
         pass
 
 
+class SByteDevice(Device):
+    """reads one input byte declared as a signed 8-bit integer"""
+    sb = TerminalVar()
+
+    def __init__(self, t):
+        self.sb = PacketVar(t, SyncManager.IN, 1, "b")
+        self.seen = []
+
+    def update(self):
+        self.seen.append(self.sb)
+
+    def program(self):
+        pass
+
+
 class CmdDevice(Device):
     """an output that is not driven from update() but commanded from
     outside (another task, a GUI) between two cycles"""
@@ -174,8 +189,12 @@ def run_case(case):
         cmddevs = [(ti, CmdDevice(t, d["osz"] >= 8))
                    for ti, (t, d) in enumerate(zip(ts, case["terms"]))
                    if d["rw"] and d["osz"] >= 4][:1]
+        sbdevs = [(ti, SByteDevice(t))
+                  for ti, (t, d) in enumerate(zip(ts, case["terms"]))
+                  if d["isz"] >= 2][:2]
         sg = SyncGroup(ec, devs + [bd for _, bd in bitdevs]
-                       + [cd for _, cd in cmddevs])
+                       + [cd for _, cd in cmddevs]
+                       + [sd for _, sd in sbdevs])
         orig = sg.update_devices
 
         def command(ti, cd, value):
@@ -201,7 +220,8 @@ def run_case(case):
                 seen=[d.seen[-1] for d in devs],
                 sent=[d.sent[-1] if d.sent else None for d in devs],
                 bits=[(ti, bd.bits, bd.seen[-1], bd.sent[-1])
-                      for ti, bd in bitdevs]))
+                      for ti, bd in bitdevs],
+                sbytes=[(ti, sd.seen[-1]) for ti, sd in sbdevs]))
             return r
         sg.update_devices = upd
         for seg in range(2 if case.get("restart") else 1):
@@ -212,7 +232,8 @@ def run_case(case):
                     # the same devices are handed to a new sync group
                     # object (a re-configuration) once the first has ended
                     sg = SyncGroup(ec, devs + [bd for _, bd in bitdevs]
-                                   + [cd for _, cd in cmddevs])
+                                   + [cd for _, cd in cmddevs]
+                                   + [sd for _, sd in sbdevs])
                     orig = sg.update_devices
                     sg.update_devices = upd
             h_ = hists[-1]
@@ -289,6 +310,18 @@ def check_run(case, hist, res, seg):
                               f"cycle {n}: device of {t.name} saw "
                               f"{u['seen'][ti]:#x}, response holds "
                               f"{want:#x}", case=case)
+                return False
+        for ti, seen in u.get("sbytes", []):
+            st = assign[ts[ti]][SyncManager.IN]
+            want, = struct.unpack_from("<b", c["resp"], st + 1)
+            res.count("signed_byte_inputs_compared")
+            if want < 0:
+                res.count("signed_byte_inputs_that_were_negative")
+            if seen != want:
+                res.violation("unexplained:input-data",
+                              f"cycle {n}: the signed byte of "
+                              f"{ts[ti].name} was seen as {seen}, the "
+                              f"response holds {want}", case=case)
                 return False
         for ti, bits, seen, _ in u["bits"]:
             st = assign[ts[ti]][SyncManager.IN]
